@@ -47,6 +47,7 @@ GARBAGE = b"\x05\x00\x00"  # invalid preamble
 NOISE_MARK = b"\x01\x00\x00"  # device speaks noise
 BAD_PAYLOAD = frame_raw(27, b"\x12\x02\xff\xfe")  # TextSensorStateResponse with invalid utf-8
 SENSOR = frame(pb.SensorStateResponse(key=1, state=2.0))
+DEVINFO = frame(pb.DeviceInfoResponse(name="dev"))
 
 
 class _FakeTime:
@@ -93,6 +94,15 @@ class World:
         CL.APIConnection = LoggedConnection
         self.conn = None
         self.closed = False
+        self.write_states: list = []  # connection state at every transport.write attempt
+        self.loop.on_new_transport = self._hook_transport
+
+    def _hook_transport(self, tr) -> None:
+        def on_write(_tr, _data):
+            c = self.conn
+            self.write_states.append(c.connection_state if c is not None else None)
+
+        tr.on_write = on_write
 
     # ---- stubbed environment
     async def _resolve(self, hosts, port, zc=None):
